@@ -47,7 +47,16 @@ func (b Branch) Target(ctx context.Context, height int) (*big.Int, error) {
 	projected.Mul(work, big.NewInt(600))
 	projected.Div(projected, big.NewInt(timeSpan))
 
-	target := bitcoin.ConvertToWork(projected)
+	// Target (T) = (2^256 / PW) - 1, calculated as (2^256 - PW) / PW like the network does. This is
+	// not the same as the value that requires PW work, 2^256 / (PW + 1), when that is just below a
+	// value that the target bits can represent, for example when the difficulty is steady.
+	if projected.Sign() == 0 {
+		return new(big.Int).Set(bitcoin.MaxWork), nil
+	}
+	target := &big.Int{}
+	target.Lsh(big.NewInt(1), 256)
+	target.Sub(target, projected)
+	target.Div(target, projected)
 
 	if target.Cmp(bitcoin.MaxWork) > 0 {
 		target.Set(bitcoin.MaxWork)
